@@ -65,7 +65,7 @@ CHECKS = {
          "DESIGN.md 6.C06", "E1 E4"),
  "C11": ("model_checking",
          "enumeration of cyclic block graphs x cyclic-capable schedulers x all input sequences (pre-states); fixed-point re-check on the real blocks, reference values for false loops",
-         "41 block-level cyclic designs (false loops through whole signals, slices, fields, nested fields, list elements; SCCs as sources and behind a predecessor; rings of 3..12 "
+         "122 block-level cyclic designs (false loops through whole signals, slices, fields, nested fields, list elements; SCCs as sources and behind a predecessor; rings of 3..12 "
          "blocks; latching and oscillating true loops; update_once members) are evaluated under DynamicSchedulePass and Mamba2020Pass for every input sequence of length 2 (3); "
          "each return is re-checked to be a fixed point and, for false loops, equal to the reference; divergence and update_once must raise; acyclic-only passes must reject.",
          "Trusted: vt/irref.py for false loops; a 20 s alarm as hang detector. Loops through nets/children are not generated.",
